@@ -119,6 +119,7 @@ func c16WindowBoundary(r *simrt.Run, w *nomsim.World, wl *nomsim.Workload, f *no
 }
 
 func runC16(r *simrt.Run) {
+	r.WatchLocks() // a lock of the node that is never released is a violation, not a hang
 	t := r.T
 	mode := nomsim.SporkMode(t.Choose(3))
 	w := nomsim.NewWorld(r, nomsim.MockGenesis(mode))
